@@ -221,7 +221,14 @@ def setup_upload_copy(u):
     bs = fresh("int", "block_size")
     u.assume(bs.t >= 1)
     env = Env(mod.env)
-    env.vars.update(file_in=FileModel(), stream=stream, block_size=bs)
+    # names of the two locals of the copy loop, read from the loop itself: `async for b in <SRC>.iter_by_block(..): await <DST>.write(b)`
+    src_name = loop.iter.func.value.id if isinstance(loop.iter.func.value, ast.Name) else None
+    dst = [n.func.value.id for n in ast.walk(loop) if isinstance(n, ast.Call) and isinstance(n.func, ast.Attribute) and n.func.attr == "write" and isinstance(n.func.value, ast.Name)]
+    if src_name is None or len(dst) != 1:
+        raise __import__("pyvc.core", fromlist=["Unsupported"]).Unsupported("Client.upload: copy loop is not `async for b in <file>.iter_by_block(..): await <stream>.write(b)`")
+    env.vars.update(block_size=bs)
+    env.vars[src_name] = FileModel()
+    env.vars[dst[0]] = stream
 
     def run(i, a, k):
         def body():
